@@ -197,6 +197,9 @@ pub struct Drv {
     pub recent_calls: Vec<(&'static str, Option<u32>, Vec<crate::producer::Group>)>,
     /// module-scope values whose type is a declared 64-bit type (switch selectors with two-word case literals)
     pub typed64: Vec<u32>,
+    /// the no-panic / structure workload (C12) may also issue requests that are not type-consistent (a switch whose case
+    /// literals mix one- and two-word variants); the round-trip workloads must not
+    pub allow_ill_typed: bool,
 }
 
 impl Drv {
@@ -218,6 +221,7 @@ impl Drv {
             constants: vec![],
             recent_calls: vec![],
             typed64: vec![],
+            allow_ill_typed: false,
         };
         // a few ids nothing defines: used as switch selectors and as "unknown" result types
         for _ in 0..3 {
@@ -566,6 +570,17 @@ impl Drv {
                             }
                             want.ops = groups.iter().flat_map(|g| g.items.iter().flatten().cloned()).collect();
                         }
+                        if self.allow_ill_typed && (bind.name == "switch" || bind.name == "insert_switch") && groups.len() == 3 && groups[2].items.len() >= 2 && arg_seed % 4 == 1 {
+                            // case literals of mixed variants (the builder takes any dr::Operand per case)
+                            let k = (arg_seed / 4) as usize % groups[2].items.len();
+                            let flipped = match groups[2].items[k].first().cloned() {
+                                Some(MOp::W(_, v)) => MOp::L64(v as u64),
+                                Some(MOp::L64(v)) => MOp::W(s.k_lit32, v as u32),
+                                other => other.unwrap_or(MOp::W(s.k_lit32, 0)),
+                            };
+                            groups[2].items[k][0] = flipped;
+                            want.ops = groups.iter().flat_map(|g| g.items.iter().flatten().cloned()).collect();
+                        }
                         let has_rid = s.inst(bind.opcode).map(|gi| gi.operands.iter().any(|(k, _)| s.cat(*k) == crate::snapshot::Cat::IdResult)).unwrap_or(false);
                         // explicit result ids are usually fresh; tiny argument seeds (only the id-discipline workload draws
                         // them) also re-use the id of an existing type declaration, or one of the request's own operands
@@ -772,7 +787,7 @@ impl Drv {
                 if !self.reserved.is_empty() && seed % 2 == 0 {
                     touched |= set_word(groups, 0, self.reserved[0]);
                 }
-                touched |= set_word(groups, 1, [7u32, 2, 12][(seed % 3) as usize]); // Function / Uniform / StorageBuffer
+                touched |= set_word(groups, 1, [7u32, 2, 12, 7, 2, 12, 5349, 6, 9][(seed % 9) as usize]); // Function / Uniform / StorageBuffer / ...
             }
             "type_struct" | "type_struct_id" => {
                 if let Some(g) = groups.get_mut(0) {
@@ -789,7 +804,8 @@ impl Drv {
                 }
             }
             "type_pointer" => {
-                touched |= set_word(groups, 0, [7u32, 2, 12][(seed % 3) as usize]);
+                // Function / Uniform / StorageBuffer mostly; PhysicalStorageBuffer, Private, PushConstant too
+                touched |= set_word(groups, 0, [7u32, 2, 12, 7, 2, 12, 5349, 6, 9][(seed % 9) as usize]);
                 if !self.struct_ids.is_empty() && seed % 2 == 0 {
                     touched |= set_word(groups, 1, *self.struct_ids.last().unwrap());
                 }
